@@ -806,6 +806,26 @@ pub fn run(run: &mut Run) -> Finish {
             l.sample(idx, json!({"layer": "F1", "fixture": name, "bytes": doc.len()}));
         }
     });
+    // B4: texts for reference discovery whose bytes around the end of the comment key are multi-byte
+    let mut texts: Vec<Vec<u8>> = vec![];
+    for lead in ["//# sourceMappingURL", "//@ sourceMappingURL", "//# sourceMappingUR", "//# sourceMappingURL=", "//# sourceMappingU", "//#", "//# "] {
+        for ch in ["é", "→", "𝒜", "＝", "\u{a0}", "\u{2028}"] {
+            for tail in ["", "x", "=x.map"] {
+                for pre in ["", "a;\n", "\n\n"] {
+                    texts.push(format!("{pre}{lead}{ch}{tail}").into_bytes());
+                    texts.push(format!("{pre}{lead}{ch}{ch}{tail}\n").into_bytes());
+                }
+            }
+        }
+    }
+    let ntexts = texts.len() as u64;
+    run.par_slice("B4: reference-discovery texts: 7 prefixes of the comment key x 6 multi-byte characters (1 or 2 of them) x 3 tails x 3 preceding texts, through every entry point", 5, ntexts, |idx, l| {
+        let (v, class, _) = check_bytes(&texts[(idx & 0xffff_ffff) as usize], "B4");
+        for x in v {
+            l.violation(idx, x);
+        }
+        l.case(false, class);
+    });
     let mut cuts: Vec<(usize, usize)> = vec![];
     for (i, (_, doc)) in large.iter().enumerate() {
         let n = doc.len();
